@@ -1,7 +1,7 @@
 (* C04 — MySQL: emitted DDL is executable in order and leaves the declared schema; every MODIFY keeps the
    column's current type, nullability and default.  Pinned statements only.
    Engine = the MySQL catalog MODEL of Model/Engine.v (modelled, not verified: no server in the sandbox). *)
-From VV.MYSQL Require Import Spec SpecKeys SpecCreate SpecFk ModifyP WitnessP SimP SimKeysP SimCreateP SimFkP SimRemoveP SimRenameP SimAllP.
+From VV.MYSQL Require Import Spec SpecKeys SpecCreate SpecFk ModifyP WitnessP SimP SimKeysP SimCreateP SimFkP SimRemoveP SimRenameP SimAllP SpecPending SimPendP SimPend2P.
 
 (* ------------------------------------------------------------------------------------------------------
    1. The history-dependent part, for ALL inputs: the MODIFY COLUMN emitted for a ModifyColumn{Type,
@@ -430,6 +430,94 @@ Example C04_sim_hypotheses_satisfiable :
   add_key_full_hyp ok_modify_schema (AddConstraint "t" (CUnique None ["name"])) = true /\
   remove_check_sim_hyp [mkTable "t" None [pcol "id" (TSimple Integer) false] [CPrimaryKey false ["id"]; CCheck "ck" "id > 0"]]
                        (RemoveConstraint "t" (CCheck "ck" "id > 0")) = true.
+Proof. vm_compute. repeat split; reflexivity. Qed.
+
+(* ------------------------------------------------------------------------------------------------------
+   4. The pending-set invariant (Model/SpecPending.v): replay promotes the inline index / unique / foreign_key of an
+      added column into the baseline at once, MySQL gets it only when the equal AddConstraint runs.  SimP s P c: the
+      engine catalog is the believed catalog of s minus the pending constraints P (up to constraint order; the ghost
+      schema v is what the engine has).  AddColumn establishes it, the matching AddConstraint discharges it, the other
+      kinds preserve it (RenameTable excepted; RemoveConstraint / DeleteColumn / RenameColumn on tables with nothing
+      pending). *)
+Theorem C04_SimP_establish : forall P s v t col fw s' v',
+  pend_rel P s v -> nodup_str (map t_name v) = true ->
+  apply_action s (AddColumn t col fw) = Ok s' -> apply_action v (AddColumn t (strip_inline col) fw) = Ok v' ->
+  constraints_of v' t = constraints_of v t ->
+  pend_rel (pend_step s P (AddColumn t col fw)) s' v'.
+Proof. exact simp_establish. Qed.
+Print Assumptions C04_SimP_establish.
+Check C04_SimP_establish : forall P s v t col fw s' v',
+  pend_rel P s v -> nodup_str (map t_name v) = true ->
+  apply_action s (AddColumn t col fw) = Ok s' -> apply_action v (AddColumn t (strip_inline col) fw) = Ok v' ->
+  constraints_of v' t = constraints_of v t ->
+  pend_rel (pend_step s P (AddColumn t col fw)) s' v'.
+
+(* discharge (the constraint is pending: the believed schema does not change, the ghost gains it) and plain
+   AddConstraint (both gain it) in one statement: pend_step removes one pending occurrence if there is one *)
+Theorem C04_SimP_discharge : forall P s v t k s' v',
+  pend_rel P s v -> nodup_str (map t_name v) = true ->
+  apply_action s (AddConstraint t k) = Ok s' -> apply_action v (AddConstraint t k) = Ok v' ->
+  contains_constraint k (constraints_of v t) = false ->
+  pend_rel (pend_step s P (AddConstraint t k)) s' v'.
+Proof. exact simp_add_constraint. Qed.
+Print Assumptions C04_SimP_discharge.
+Check C04_SimP_discharge : forall P s v t k s' v',
+  pend_rel P s v -> nodup_str (map t_name v) = true ->
+  apply_action s (AddConstraint t k) = Ok s' -> apply_action v (AddConstraint t k) = Ok v' ->
+  contains_constraint k (constraints_of v t) = false ->
+  pend_rel (pend_step s P (AddConstraint t k)) s' v'.
+
+Theorem C04_SimP_preserve : forall P s v a s1 v1,
+  pend_rel P s v -> nodup_str (map t_name v) = true -> simp_kind_ok P v a = true ->
+  apply_action s a = Ok s1 -> apply_action v (ghost_action a) = Ok v1 ->
+  pend_rel (pend_step s P a) s1 v1.
+Proof. exact simp_step_rel. Qed.
+Print Assumptions C04_SimP_preserve.
+Check C04_SimP_preserve : forall P s v a s1 v1,
+  pend_rel P s v -> nodup_str (map t_name v) = true -> simp_kind_ok P v a = true ->
+  apply_action s a = Ok s1 -> apply_action v (ghost_action a) = Ok v1 ->
+  pend_rel (pend_step s P a) s1 v1.
+
+(* lifted over plans: the REAL statements run and the engine ends in the believed catalog minus what is still pending *)
+Theorem C04_SimP_plan : forall s acts s',
+  simp_plan_steps [] s s acts = true -> apply_all s acts = Ok s' ->
+  exists L c', gen_plan s acts = Ok L /\ run (catalog_of s) (List.concat L) = RunOk c' /\ SimP s' (pend_at s [] acts) c'.
+Proof. exact SimP_plan. Qed.
+Print Assumptions C04_SimP_plan.
+Check C04_SimP_plan : forall s acts s',
+  simp_plan_steps [] s s acts = true -> apply_all s acts = Ok s' ->
+  exists L c', gen_plan s acts = Ok L /\ run (catalog_of s) (List.concat L) = RunOk c' /\ SimP s' (pend_at s [] acts) c'.
+
+(* ... and when nothing is pending at the end (and the order in which foreign keys were created cannot matter), in the
+   believed catalog itself, as a set of objects *)
+Theorem C04_SimP_plan_equiv : forall s acts s',
+  simp_plan_full s acts = true -> apply_all s acts = Ok s' ->
+  exists L c', gen_plan s acts = Ok L /\ run (catalog_of s) (List.concat L) = RunOk c' /\ cat_equiv c' (catalog_of s').
+Proof. exact SimP_plan_equiv. Qed.
+Print Assumptions C04_SimP_plan_equiv.
+Check C04_SimP_plan_equiv : forall s acts s',
+  simp_plan_full s acts = true -> apply_all s acts = Ok s' ->
+  exists L c', gen_plan s acts = Ok L /\ run (catalog_of s) (List.concat L) = RunOk c' /\ cat_equiv c' (catalog_of s').
+
+(* the same conclusion for any plan whose ghost plan is made of proved kinds, with the final comparison of the ghost and
+   the believed schema CHECKED (catalog_eqb) instead of derived from the invariant *)
+Theorem C04_SimP_plan_checked : forall s acts s',
+  simp_plan_ok s acts = true -> apply_all s acts = Ok s' ->
+  exists L c', gen_plan s acts = Ok L /\ run (catalog_of s) (List.concat L) = RunOk c' /\ catalog_eqb c' (catalog_of s') = true.
+Proof. exact SimP_plan_checked. Qed.
+Print Assumptions C04_SimP_plan_checked.
+Check C04_SimP_plan_checked : forall s acts s',
+  simp_plan_ok s acts = true -> apply_all s acts = Ok s' ->
+  exists L c', gen_plan s acts = Ok L /\ run (catalog_of s) (List.concat L) = RunOk c' /\ catalog_eqb c' (catalog_of s') = true.
+
+Example C04_SimP_hypotheses_satisfiable :
+  let acts := [AddColumn "t" (mkCol "tag" (TVarchar 32) true None None None None (Some (SBool true)) None) None;
+               AddColumn "t" (mkCol "owner" (TSimple Integer) true None None None None None (Some (FKStr "t.id"))) None;
+               AddConstraint "t" (CUnique None ["name"]);
+               AddConstraint "t" (CIndex None ["tag"]);
+               AddConstraint "t" (CForeignKey None ["owner"] "t" ["id"] None None)] in
+  simp_plan_full ok_modify_schema acts = true /\ simp_plan_ok ok_modify_schema acts = true /\
+  forallb (fun a => sim_proved_for ok_modify_schema a) acts = false.
 Proof. vm_compute. repeat split; reflexivity. Qed.
 
 (* non-vacuity: the hypotheses are satisfiable and the full statement holds somewhere outside every class *)
